@@ -373,7 +373,15 @@ fn gen_common(src: &mut Src, o: &GdsGenOpts) -> MCommon {
     let elflags = if src.prob(1, 3) { Some((src.below(256) as u8, src.below(256) as u8)) } else { None };
     let plex = if src.prob(1, 3) { Some(gen_i32(src)) } else { None };
     let np = src.weighted(&[6, 2, 1, 1]);
-    let props = (0..np).map(|_| (gen_i16(src), gen_string(src, o))).collect();
+    let mut props: Vec<(i16, String)> = (0..np).map(|_| (gen_i16(src), gen_string(src, o))).collect();
+    // the same attribute number twice, the same value twice
+    if props.len() >= 2 && src.prob(1, 4) {
+        if src.bool() {
+            props[1].0 = props[0].0;
+        } else {
+            props[1].1 = props[0].1.clone();
+        }
+    }
     MCommon { elflags, plex, props }
 }
 fn gen_xy(src: &mut Src, o: &GdsGenOpts, big: &mut bool) -> Vec<(i32, i32)> {
@@ -511,12 +519,38 @@ pub fn gen_lib(src: &mut Src, o: &GdsGenOpts) -> (MLib, bool) {
     let dates = gen_dates(src, o);
     let units = (gen_real(src), gen_real(src));
     let ns = src.usize_in(0, o.max_structs);
-    let mut structs = vec![];
+    let mut structs: Vec<MStruct> = vec![];
     for _ in 0..ns {
-        let sname = gen_string(src, o);
-        let sdates = gen_dates(src, o);
+        // coincidences are data too: a struct named like an earlier one or like the library, dates that repeat
+        let sname = match src.weighted(&[12, 1, 1]) {
+            1 if !structs.is_empty() => structs[src.index(structs.len())].name.clone(),
+            2 => name.clone(),
+            _ => gen_string(src, o),
+        };
+        let mut sdates = gen_dates(src, o);
+        if src.prob(1, 8) {
+            sdates = dates;
+        } else if src.prob(1, 8) {
+            let (a, b) = sdates.split_at_mut(6);
+            b.copy_from_slice(a);
+        }
         let ne = src.usize_in(0, o.max_elems);
-        let elems = (0..ne).map(|_| gen_elem(src, o, &mut big)).collect();
+        let mut elems: Vec<MElem> = (0..ne).map(|_| gen_elem(src, o, &mut big)).collect();
+        // an element repeated verbatim, at once or later; a reference naming a struct of this library (itself included)
+        if !elems.is_empty() && src.prob(1, 8) {
+            let (i, j) = (src.index(elems.len()), src.index(elems.len() + 1));
+            let e = elems[i].clone();
+            elems.insert(j, e);
+        }
+        for e in elems.iter_mut() {
+            if let MElem::Sref { name: n, .. } | MElem::Aref { name: n, .. } = e {
+                match src.weighted(&[2, 1, 1]) {
+                    1 if !structs.is_empty() => *n = structs[src.index(structs.len())].name.clone(),
+                    2 => *n = sname.clone(),
+                    _ => {}
+                }
+            }
+        }
         structs.push(MStruct { name: sname, dates: sdates, elems });
     }
     (MLib { name, version, dates, units, structs }, big)
